@@ -50,9 +50,9 @@ func (p *P) Runs(tier string) int {
 // race in first-use initialisation (sync.Once tables, lazily built maps).
 func (p *P) ColdRuns(tier string) int {
 	if tier == "thorough" {
-		return 4000
+		return 8 * int(ops.NKinds) * len(coldReps)
 	}
-	return 160
+	return int(ops.NKinds) * len(coldReps)
 }
 
 func (p *P) Init(env *core.Env) error {
@@ -83,6 +83,27 @@ func (p *P) Components() map[string]string {
 	}
 }
 
+// coldReps: one representative per statement kind and per error path.
+var coldReps = []string{
+	"SELECT a, b FROM t WHERE a = 1 ORDER BY b",
+	"SELECT u.id, COUNT(*) FROM users u JOIN orders o ON u.id = o.user_id GROUP BY u.id HAVING COUNT(*) > 1",
+	"INSERT INTO t (a, b) VALUES (1, 'x')",
+	"UPDATE t SET a = 2 WHERE b IS NULL",
+	"DELETE FROM t WHERE a IN (1, 2)",
+	"CREATE TABLE t (id INT PRIMARY KEY, name VARCHAR(20) NOT NULL, created TIMESTAMP)",
+	"CREATE INDEX idx ON t (a)",
+	"CREATE VIEW v AS SELECT a FROM t",
+	"ALTER TABLE t ADD COLUMN c INT",
+	"DROP TABLE t",
+	"WITH c AS (SELECT a FROM t) SELECT a FROM c UNION SELECT a FROM u",
+	"MERGE INTO t USING s ON t.id = s.id WHEN MATCHED THEN UPDATE SET a = s.a",
+	"SELECT a, SUM(b) OVER (PARTITION BY a ORDER BY c) FROM t",
+	"SELECT CASE WHEN a > 1 THEN 'x' ELSE 'y' END, CAST(b AS INT) FROM t -- note\n",
+	"TRUNCATE TABLE t",
+	"SELECT * FORM t",
+	"SELECT 'unterminated",
+}
+
 type cell struct {
 	op    ops.Op
 	purge bool   // a GC cycle empties all pools just before this operation
@@ -97,6 +118,15 @@ func (p *P) Run(src *tape.Source, trace bool) *core.Result {
 	ops.ResetGlobals()
 	p.race.Mark()
 
+	// ---- cold-start stratum: the first operation of EVERY task is the same
+	// (operation kind, statement kind) pair, so that whatever that path
+	// initialises on first use is initialised by several tasks at once. The
+	// pair is the run's first choice: the driver enumerates the pairs.
+	coldKind, coldSQL := ops.Kind(-1), ""
+	if p.env.Cold {
+		pair := src.Intn(int(ops.NKinds)*len(coldReps), "c10.coldpair")
+		coldKind, coldSQL = ops.Kind(pair/len(coldReps)), coldReps[pair%len(coldReps)]
+	}
 	// ---- configuration (swarm)
 	nTasks := 2 + src.Intn(3, "c10.tasks")
 	if src.Intn(8, "c10.many") == 7 {
@@ -106,7 +136,7 @@ func (p *P) Run(src *tape.Source, trace bool) *core.Result {
 	// map so that 0 = always-miss (fault-free baseline)
 	mode = []pool.Mode{pool.AlwaysMiss, pool.Mixed, pool.HitNewest, pool.Mixed}[mode]
 	var enabled []ops.Kind
-	directOnly := src.Intn(6, "c10.directonly") == 5
+	directOnly := src.Intn(6, "c10.directonly") == 5 && (coldKind < 0 || coldKind.DirectTokenize())
 	if directOnly {
 		enabled = []ops.Kind{ops.TokenizeDirect, ops.TokenizePooled}
 	} else {
@@ -132,6 +162,13 @@ func (p *P) Run(src *tape.Source, trace bool) *core.Result {
 	}
 	work := make([][]*cell, nTasks)
 	for t := range work {
+		if coldKind >= 0 {
+			op := ops.Gen(src, []ops.Kind{coldKind})
+			if op.SQL != "" && op.Kind != ops.Suggest {
+				op.SQL = coldSQL
+			}
+			work[t] = append(work[t], &cell{op: op})
+		}
 		n := 1 + src.Intn(5, "c10.nops")
 		for i := 0; i < n; i++ {
 			op := ops.Gen(src, enabled)
